@@ -1365,7 +1365,7 @@ static SYMBOL_EXTENDED: [u8; 16] = [
 ];
 
 fn is_delimiter(c: u8) -> bool {
-    c.is_ascii_whitespace() || b"|()\"".contains(&c)
+    c.is_ascii_whitespace() || b"|()[]\";".contains(&c)
 }
 
 // This implements the <sign subsequent> nonterminal of R7RS 7.1.1
